@@ -13,7 +13,7 @@ from harness import px
 from harness.probes import pm
 
 GEOM = ["row", "col", "total_thickness", "pixel_vert_size", "pixel_horz_size", "pixel_scale"]
-ENV = ["temperature"]
+ENV = ["temperature", "wavelength"]
 CHAR = ["quantum_efficiency", "charge_to_volt_conversion", "pre_amplification", "full_well_capacity",
         "adc_bit_resolution", "adc_voltage_range"]
 APD_CHAR = ["quantum_efficiency", "full_well_capacity", "adc_bit_resolution", "adc_voltage_range"]
@@ -216,7 +216,9 @@ def run_history(case: dict) -> dict:
                     after = snapshot(proc, kind)
                 elif path == "setattr":
                     obj = getattr(proc.detector, key[1])
-                    if not hasattr(obj, key[2]):
+                    # (does the attribute exist - asked of the class: the getter of an optional quantity that was
+                    # never given raises)
+                    if not (hasattr(type(obj), key[2]) or key[2] in vars(obj)):
                         raise AttributeError(key[2])
                     setattr(obj, key[2], value)
                     after = snapshot(proc, kind)
